@@ -453,29 +453,57 @@ func (h *verifH) onDisk(ref int) bool {
 	return err == nil
 }
 
-// waitQuiescent waits until every manifest layer of the image has a resolve status: getLayer
-// returns as soon as the wanted layer is there while the other layers are still being resolved.
+// verifBusyWorkers counts the goroutines started by getLayer (one per manifest layer) that are
+// still working.  getLayer returns as soon as the wanted layer is there; the goroutines of the
+// other layers keep resolving -- or have not even been scheduled yet and would resolve a layer that
+// a later release dropped.  A worker that found the layer after somebody else delivered it stays
+// parked for ever in `resultChan <- gotL`; that one is finished as far as the state is concerned.
+func verifBusyWorkers() int {
+	buf := make([]byte, 1<<20)
+	for {
+		n := runtime.Stack(buf, true)
+		if n < len(buf) {
+			buf = buf[:n]
+			break
+		}
+		buf = make([]byte, 2*len(buf))
+	}
+	busy := 0
+	for _, g := range bytes.Split(buf, []byte("\n\n")) {
+		if !bytes.Contains(g, []byte("sync.(*WaitGroup).Go")) && !bytes.Contains(g, []byte("LayerManager).getLayer")) {
+			continue
+		}
+		nl := bytes.IndexByte(g, '\n')
+		if nl < 0 {
+			continue
+		}
+		head := g[:nl]
+		if bytes.Contains(head, []byte("[chan send")) {
+			continue // parked on resultChan
+		}
+		if bytes.Contains(g, []byte("sync.(*WaitGroup).Wait")) {
+			continue // the goroutine that closes allDone
+		}
+		if bytes.Contains(g, []byte("verifBusyWorkers")) || bytes.Contains(g, []byte("testing.tRunner")) {
+			continue // the harness itself
+		}
+		busy++
+	}
+	return busy
+}
+
+// waitQuiescent waits until the lookup that just returned has no worker left.
 func (h *verifH) waitQuiescent(ref int) {
-	im := h.images[ref]
 	deadline := time.Now().Add(20 * time.Second)
 	for {
-		all := true
-		h.lm.mu.Lock()
-		c := h.lm.resolveLayerCache[im.ref.String()]
-		for _, d := range im.descs {
-			if _, ok := c[d.Digest.String()]; !ok {
-				all = false
-			}
-		}
-		h.lm.mu.Unlock()
-		if all {
+		if verifBusyWorkers() == 0 {
 			return
 		}
 		if time.Now().After(deadline) {
-			h.fail("resolve-not-quiescent", fmt.Sprintf("layers of ref %d have no resolve status 20s after the lookup", ref))
+			h.fail("resolve-not-quiescent", fmt.Sprintf("layers of ref %d are still being resolved 20s after the lookup", ref))
 			return
 		}
-		time.Sleep(50 * time.Microsecond)
+		time.Sleep(20 * time.Microsecond)
 	}
 }
 
@@ -616,8 +644,10 @@ func (h *verifH) lookup(ref, toc int, via string) {
 	}
 	h.hist = append(h.hist, opl)
 	manifestAvail := im.exists && (diskBefore || mf)
-	if !cachedBefore && manifestAvail {
+	if !cachedBefore {
 		h.waitQuiescent(ref)
+	}
+	if !cachedBefore && manifestAvail {
 		// oracle bookkeeping: every layer that could not be resolved during this pass may now carry
 		// a memoised error until the image's bookkeeping is reset
 		for _, bi := range failing {
